@@ -37,6 +37,8 @@ type Fault struct {
 	// Call > 0: only the Call-th invocation of (node, field) within the request fails (the same
 	// field of the same object reached twice: through a repeated response key, a shared node).
 	Call int `json:"call,omitempty"`
+	// Same: the members of a group all carry the same text (they are still one failure each)
+	Same bool `json:"same,omitempty"`
 }
 
 func faultKey(node int, field string) string { return strconv.Itoa(node) + "/" + field }
